@@ -59,6 +59,10 @@ var c12Wraps = []c12Wrap{
 	{"fb() && ", "", "tb()"},
 	{"tb() || ", "", "fb()"},
 	{"", " + f0(a)", "f0(a)"},     // a left-nested strict chain
+	// method-call sugar: the receiver is the nest (a chain), or an argument is
+	{"", ".abs()", "a"},
+	{"", ".max(a)", "a"},
+	{"a.max(", ")", "a"},
 }
 
 func c12Nest(w1, w2 c12Wrap, n int) string {
